@@ -15,6 +15,10 @@
 (* frequency coordinate can be equal as numbers and still belong to        *)
 (* different bins.  Req never looks at fu: Bin takes the AXIS and the      *)
 (* value, the time lookup and the frequency lookup are independent.        *)
+(* tstep, fstep (optional: <<>> or <<v>>) are the 'step' attributes stored *)
+(* on the coordinates, again for the binder only: they may be absent or    *)
+(* STALE (a subsampled template keeps the attribute of the finer axis).    *)
+(* Req follows the template's ACTUAL coordinates t0 + i*ts, f0 + j*fs.     *)
 (* A case is [tpl, geoms, values, scalar, fill, dt].                       *)
 (* A cell is <<i, j>> with 0-based time bin i and frequency bin j.         *)
 (***************************************************************************)
